@@ -382,9 +382,9 @@ Proof.
   set (lv' := firstn (List.length PA) (live a) ++ n :: skipn (List.length PA) (live a)) in *.
   assert (EGG : dpre a ++ bnd a :: lv' = (dpre a ++ PA) ++ tl :: n :: s :: PB').
   { rewrite Elive, <- app_assoc. reflexivity. }
-  assert (EG1 : GG a = ((dpre a ++ PA) ++ [tl]) ++ s :: PB') by (rewrite EG0, <- app_assoc; reflexivity).
+  assert (EG1 : GG a = ((dpre a ++ PA) ++ [tl]) ++ s :: PB') by (rewrite EG0, <- (app_assoc (dpre a ++ PA) [tl] (s :: PB')); reflexivity).
   assert (EG2 : dpre a ++ bnd a :: lv' = ((dpre a ++ PA) ++ [tl]) ++ n :: s :: PB').
-  { rewrite EGG, <- (app_assoc _ [tl]). reflexivity. }
+  { rewrite EGG, <- (app_assoc (dpre a ++ PA) [tl] (n :: s :: PB')). reflexivity. }
   assert (Hne : n <> tl) by (intros ->; contradiction).
   assert (Hpre : forall x, In x (dpre a) -> x <> tl).
   { intros x Hx ->. eapply nodup_disj; [exact H1|exact Hx|]. rewrite Epost. apply in_or_app. right. now left. }
